@@ -721,6 +721,9 @@ def cursor_loop_inv(eng, st, self_sv, study_id, acc, c0, i):
     return SV(KBool, z3.And(eng.dict_has(st, m.pw, study_id), pw == z3.If(n > 0, first_num, c0.term)))
 
 
+# get_all_trials filters with a list comprehension and its contract states number ORDER: the all-pairs order-preservation
+# axiom of filtered comprehensions is requested for this registry
+R.rt_helpers["comp_monotone_full"] = True
 GAT_STATES = "list[TrialState] | None"
 R.spec(F, "InMemoryStorage.get_all_trials", props=["C01", "C03", "C04", "C20"], guarded_by=GUARD,
        types={"states": GAT_STATES},
